@@ -360,6 +360,14 @@ fn gen_voxels(rng: &mut Rng, tier: Tier) -> Sc {
             }
         }
     }
+    // keep two cells of room to the ends of the i32 range: the neighbourhood scan adds +-1
+    let mut off = off;
+    for k in 0..3 {
+        let lo = cells.iter().map(|c| c[k] as i64).min().unwrap_or(0);
+        let hi = cells.iter().map(|c| c[k] as i64).max().unwrap_or(0);
+        let o = (off[k] as i64).clamp(i32::MIN as i64 + 2 - lo, i32::MAX as i64 - 2 - hi);
+        off[k] = o as i32;
+    }
     let set: BTreeSet<[i32; 3]> = cells.iter().map(|c| [c[0] + off[0], c[1] + off[1], c[2] + off[2]]).collect();
     let mut cells: Vec<[i32; 3]> = set.into_iter().collect();
     if cells.is_empty() {
